@@ -16,7 +16,7 @@ from statham.schema.elements import (
 )
 from statham.schema.elements.meta import ObjectMeta
 from statham.schema.property import _Property
-from statham.serializers.orderer import get_object_classes
+from statham.serializers.orderer import get_children, get_object_classes
 
 
 def serialize_json(
@@ -39,6 +39,12 @@ def serialize_json(
     serialize = partial(
         _serialize_element, object_refs=True, definitions=definitions
     )
+    # The primary element needs its own definition if others refer to it.
+    referenced = [
+        child
+        for element in (*elements[1:], *(definitions or {}).values())
+        for child in get_children(element)
+    ]
     primary_schema = serialize(primary)
     if primary_schema is False:
         # A boolean schema cannot carry definitions.
@@ -49,6 +55,7 @@ def serialize_json(
             object_class.__name__: serialize(object_class)
             for object_class in object_classes
             if object_class is not primary
+            or any(object_class is child for child in referenced)
         },
     }
     if definitions:
